@@ -5,7 +5,9 @@ import os, sys, json, re, time, hashlib, subprocess, shutil
 
 VERIF = os.path.dirname(os.path.dirname(os.path.abspath(__file__)))
 REPO = os.environ.get('VERIF_REPO', '/repo')
-BUILD = os.path.join(VERIF, 'build')
+BUILD_ROOT = os.path.join(VERIF, 'build')
+# generated units of a non-default tree go to their own directory, so concurrent checks of different trees never collide
+BUILD = BUILD_ROOT if os.path.realpath(REPO) == '/repo' else os.path.join(BUILD_ROOT, 'alt-' + hashlib.sha256(os.path.realpath(REPO).encode()).hexdigest()[:10])
 sys.path.insert(0, os.path.join(VERIF, 'tools'))
 import extract
 
@@ -108,7 +110,7 @@ def unit_result(unit, tier='quick', seed=0, probe=False, known_strict=()):
         path, meta = extract.build_unit(unit, REPO, VERIF, BUILD)
         text = open(path).read()
     key = hashlib.sha256((text + verus_version() + ' '.join(BASE_FLAGS)).encode()).hexdigest()[:24]
-    cdir = os.path.join(BUILD, 'cache'); os.makedirs(cdir, exist_ok=True)
+    cdir = os.path.join(BUILD_ROOT, 'cache'); os.makedirs(cdir, exist_ok=True)
     cpath = os.path.join(cdir, '%s-%s.json' % (unit, key))
     if os.path.exists(cpath) and not os.environ.get('VERIF_NOCACHE'):
         c = json.load(open(cpath)); c['cached'] = True; c['meta'] = meta
